@@ -81,6 +81,14 @@ pub struct RegPlan {
     pub collectors: Vec<Vec<DescSpec>>,
     pub threads: Vec<Vec<ROp>>,
     pub yield_in_collect: bool,
+    /// history before the generated operations, executed sequentially: these collectors are
+    /// registered and unregistered again (their names and dimensions are then "ever registered") ...
+    #[serde(default)]
+    pub pre: Vec<usize>,
+    /// ... followed by this many register+unregister pairs of collectors with fresh names (long churn:
+    /// nothing a registry remembers may be forgotten because much else happened in between)
+    #[serde(default)]
+    pub churn: usize,
 }
 
 fn gen_desc(r: &mut Rng, names: &[&str]) -> DescSpec {
@@ -181,7 +189,18 @@ fn gen_plan(seed: u64) -> RegPlan {
         threads[k % nthreads].push(op);
     }
     let env = Env::swarm(&mut r, nthreads, total as u64 * 6 + 10, false);
-    RegPlan { env, collectors, threads, yield_in_collect: nthreads > 1 && r.chance(40) }
+    let yield_in_collect = nthreads > 1 && r.chance(40);
+    let (pre, churn) = if r.chance(3) {
+        let k = 1 + r.below(collectors.len() as u64) as usize;
+        let mut idx: Vec<usize> = (0..collectors.len()).collect();
+        r.shuffle(&mut idx);
+        idx.truncate(k);
+        // most of these runs are short; about one run in 400 churns through more than a thousand names
+        (idx, *r.pick(&[0usize, 3, 17, 40, 130, 130, 300, 1100, 2100]))
+    } else {
+        (vec![], 0)
+    };
+    RegPlan { env, collectors, threads, yield_in_collect, pre, churn }
 }
 
 #[derive(Clone, Debug, PartialEq)]
@@ -327,6 +346,46 @@ fn execute(plan: &RegPlan, mode: Mode) -> RunOut {
     let sim = new_sim(&plan.env, mode);
     let results: Results<RRes> = Arc::new(Mutex::new(vec![]));
     let reg = Registry::new();
+    // ---- earlier history (sequential, before the simulated threads start)
+    let spec0 = RegSpec { collectors: &plan.collectors };
+    let mut init = MReg { registered: BTreeSet::new(), ever: BTreeMap::new(), unknown: false };
+    let mut pre_viol: Vec<Violation> = vec![];
+    for &c in &plan.pre {
+        let col = |c: usize| make_collector(&plan.collectors[c], c, false);
+        let r1 = match col(c) {
+            Ok(x) => match reg.register(Box::new(x)) {
+                Ok(()) => RRes::RegOk,
+                Err(Error::AlreadyReg) => RRes::RegAlready,
+                Err(e) => RRes::RegErr(e.to_string()),
+            },
+            Err(e) => RRes::RegErr(format!("descriptor construction failed: {}", e)),
+        };
+        let mut ops = vec![(ROp::Register(c), r1.clone())];
+        if r1 == RRes::RegOk {
+            let r2 = match col(c) {
+                Ok(x) => match reg.unregister(Box::new(x)) {
+                    Ok(()) => RRes::UnregOk,
+                    Err(_) => RRes::UnregErr,
+                },
+                Err(_) => RRes::UnregErr,
+            };
+            ops.push((ROp::Unregister(c), r2));
+        }
+        for op in ops {
+            match spec0.step(&init, &op) {
+                Some(n) => init = n,
+                None => pre_viol.push(Violation::new("C06/history", "C06/history", format!("earlier history: {:?} -> {} disagrees with the reference model (collectors {:?})", op.0, short(&op.1), plan.collectors.iter().map(|c| c.iter().map(|d| format!("{}|{}|{:?}|{:?}", d.name, d.help, d.consts, d.vars)).collect::<Vec<_>>()).collect::<Vec<_>>()))),
+            }
+        }
+    }
+    for i in 0..plan.churn {
+        let d = DescSpec { name: format!("zz_churn_{}", i), help: "help".into(), consts: vec![], vars: vec![] };
+        let ok = make_collector(&[d.clone()], 90, false).map(|x| reg.register(Box::new(x)).is_ok()).unwrap_or(false) && make_collector(&[d], 90, false).map(|x| reg.unregister(Box::new(x)).is_ok()).unwrap_or(false);
+        if !ok {
+            pre_viol.push(Violation::new("C06/history", "C06/history", format!("churn: register+unregister of the fresh name zz_churn_{} was refused", i)));
+            break;
+        }
+    }
     {
         let reg = reg.clone();
         let collectors = plan.collectors.clone();
@@ -377,7 +436,7 @@ fn execute(plan: &RegPlan, mode: Mode) -> RunOut {
     }
     h.sort_by_key(|o| o.inv);
     let spec = RegSpec { collectors: &plan.collectors };
-    let init = MReg { registered: BTreeSet::new(), ever: BTreeMap::new(), unknown: false };
+    out.violations.extend(pre_viol);
     if linearize(&spec, init.clone(), &h).is_none() {
         // explain: replay sequentially (exact for single-threaded histories) to find the first disagreement
         let mut s = init;
@@ -422,8 +481,9 @@ fn execute(plan: &RegPlan, mode: Mode) -> RunOut {
     let failed_then_reuse = h.iter().any(|o| matches!(o.op.1, RRes::RegAlready | RRes::RegErr(_)) && matches!(&o.op.0, ROp::Register(c) if plan.collectors[*c].len() > 1));
     out.probes.push(("failed_multi_descriptor_register", failed_then_reuse as u64));
     out.probes.push(("concurrent_history", (plan.threads.len() > 1) as u64));
+    out.probes.push(("churned_names_over_1000", (plan.churn > 1000) as u64));
     let mut fp = crate::rng::Fp::default();
-    fp.str(&serde_json::to_string(&(&plan.collectors, &plan.threads)).unwrap());
+    fp.str(&serde_json::to_string(&(&plan.collectors, &plan.threads, &plan.pre, plan.churn)).unwrap());
     out.signature = out.signature.wrapping_add(fp.0);
     out
 }
@@ -490,6 +550,19 @@ impl Scenario for C06 {
         }
         if p.yield_in_collect {
             c.push(RegPlan { yield_in_collect: false, ..p.clone() });
+        }
+        // shorter earlier history
+        if p.churn > 0 {
+            for n in [0usize, 3, 17, 130, 1100] {
+                if n < p.churn {
+                    c.push(RegPlan { churn: n, ..p.clone() });
+                }
+            }
+        }
+        for i in 0..p.pre.len() {
+            let mut n = p.pre.clone();
+            n.remove(i);
+            c.push(RegPlan { pre: n, ..p.clone() });
         }
         for e in shrink_env(&p.env) {
             c.push(RegPlan { env: e, ..p.clone() });
